@@ -17,9 +17,10 @@ import numpy as np
 
 from lib import core, gen, oracle, denote, graphcap
 
-EXTRACTORS = []
+EXTRACTORS = ["Unravel"]
 # Props/C01Lower.lean: correctness of the lowering algorithm of `id` for all descriptions (built and audited with C01)
-EXTRA_PROPS = ["C01Lower", "C01LowerOps"]
+# Props/C01Xlate.lean: `_unravel` (translated from /repo's source on every run) computes the coordinate form `Denote.peel`
+EXTRA_PROPS = ["C01Lower", "C01LowerOps", "C01Xlate"]
 BACKENDS = [None, "numpy", "numpy.numpylike", "numpy.einsum"]
 
 
@@ -429,6 +430,41 @@ def directed_calls():
                        "note": ["directed", "diagonal"]}
 
 
+def unravel_tie(ctx, n):
+    """The translation of `_unravel` (Extracted/Unravel.lean, compiled into the driver) against the real `_unravel` on numpy
+    arrays of flat indices (tie for the translator; `Props/C01Xlate.lean` proves the translation equal to `Denote.peel`)."""
+    from types import SimpleNamespace
+    from einx._src.adapter._util import _unravel
+    xl = (getattr(ctx, "facts", {}) or {}).get("Unravel", {})
+    ctx.extra["xlate_unravel"] = {"translated": xl.get("translated"), "readings": xl.get("notes", [])}
+    ctx.assumptions.append("Python -> Lean translation of _unravel at the level of one element (tools/extract/_pylean.py, Basic/PyPrelude.lean): " + "; ".join(xl.get("notes", [])))
+    classical = SimpleNamespace(divmod=np.divmod, reshape=np.reshape, concatenate=np.concatenate)
+    rng = ctx.rng
+    cases = []
+    for _ in range(n):
+        sizes = [rng.choice([1, 2, 3, 4, 5]) for _ in range(rng.randint(1, 4))]
+        total = int(np.prod(sizes))
+        ks = [rng.randrange(total) for _ in range(3)] + [total + rng.randint(0, 5)]     # also indices outside the block
+        axis = rng.choice([None, 0])
+        cases.append((sizes, ks, axis))
+    reqs = [{"kind": "xlate_unravel", "k": k, "sizes": sizes, "axis": axis} for sizes, ks, axis in cases for k in ks]
+    got = iter(ctx.driver().ask_many(reqs))
+    for sizes, ks, axis in cases:
+        try:
+            real = np.asarray(_unravel(classical, np.asarray(ks, dtype=np.int64), tuple(sizes), axis=axis))
+            real = real.reshape(len(sizes), len(ks))       # component i of element j (1-D shortcut with axis=None returns the indices themselves)
+            err = None
+        except Exception as ex:                            # several sizes with axis=None: `_stack` evaluates `axis < 0`
+            err = type(ex).__name__
+        for j, k in enumerate(ks):
+            lean = next(got)
+            want = {"err": err} if err else {"ok": {"v": [int(real[i, j]) for i in range(len(sizes))]}}
+            ctx.count("xlate-unravel:" + (err or ("in-block" if k < int(np.prod(sizes)) else "outside-block")))
+            if lean != want:
+                ctx.tie_broken("correspondence:xlate-unravel", f"_unravel(k={k}, ravel_shape={sizes}, axis={axis}): real {want} vs translation {lean}")
+                return
+
+
 def run(ctx):
     rng = ctx.rng
     n_calls = 350 if ctx.quick else 6000
@@ -449,6 +485,7 @@ def run(ctx):
     if ctx.driver_ok:
         prim_conformance(ctx, n_prim)
         arith_norm_selfcheck(ctx, 150 if ctx.quick else 3000)
+        unravel_tie(ctx, 120 if ctx.quick else 2500)
     directed = list(directed_calls())
     for call in directed:
         args = gen.make_args(call, rng, "rand")
